@@ -58,6 +58,36 @@ CLAIMS = {
          "sorted association list unique); all four transcript encodings are injective in every item (given < 2^32-byte items); counter inputs pairwise distinct below 2^64; the whole 512-bit "
          "digest enters the reduction (no truncation). Stream: exact hashed bytes, SHA-512 digest and challenge of all four oracles vs the model's own SHA-512.", "6 C16",
          "Different inputs => different challenges, distinct u_i, entropy: properties of SHA-512, outside any theorem. Fresh-process / thread-count independence is exercised by C19's stream."),
+ "C11": ("Theorems (both byte flavours, only p = 2q+1 needed): element_from_bytes accepts n IFF n = integer of the bytes, 1 <= n < p and n^q mod p = 1, which for a safe-prime group is exactly "
+         "the set of quadratic residues (Euler's criterion, proved); exp_from_bytes accepts IFF n < q; 0, >= p, p-1, >= q rejected; every composite wire type (14 types incl. shuffle proofs and "
+         "all vector wrappers) decodes only if each embedded element/exponent does. Stream: ALL byte strings of length 0..2 as element and exponent on small groups (accepted set = subgroup), "
+         "paddings / out-of-range values at 2048 bits, composite objects with one invalid component at every position.", "6 C11",
+         "Ristretto canonicity is not modelled yet."),
+ "C12": ("Theorems: a codec algebra (LawfulCodec: decode(encode a ++ rest) = (a, rest); extension stability; decoded values valid) proved for every borsh combinator and instantiated for all 18 wire "
+         "types of both multiplicative back-ends: round trip, injectivity, trailing bytes rejected, truncation rejected; plus the proved counterexample that deleting an INTERIOR byte cannot be rejected "
+         "by a length-prefixed format. Stream: byte-exact encoder, round trip, append/remove bytes for every type; all scalar values on p<=23.", "6 C12",
+         "Encodings of >= 2^32 bytes are excluded (borsh's u32 length prefix). 'bytes removed' is read as removed from the end."),
+ "C13": ("Theorems over a panic-aware layer (Model/PanicAware.lean: every assert/index/expect/underflow of decoders, encode/decode, inversion, the repaired and the pinned shuffle verifier, in source order): "
+         "decoding ANY byte string as any wire type never panics (p prime; primality shown necessary for num-bigint's Legendre expect), the shuffle verifier on ANY decodable input (any vector lengths, "
+         "N = 0, mismatched lists, empty generators) equals the pure verifier and never panics; closed witnesses that the pinned code panics / skips chain checks (F1) and panics on digit >= 256 (F3); "
+         "decoded payload <= input length, borsh's speculative allocation <= 4096 bytes. Stream: malformed corpus x 16 decoders, outcome class equal to the model.", "6 C13",
+         "Allocator behaviour and panics inside dependencies beyond their modelled preconditions are runtime facts (tested by catch_unwind, not proved)."),
+ "C14": ("Theorems (SafePrimeGroup): encode succeeds IFF m < q-1, yields a canonical subgroup member, decode inverts it, injective, survives the wire, refusal outside the space is an error; the random-"
+         "plaintext range [0,q-2] is inside the space and the pre-fix extra value q-1 is refused (F4 witness). Stream: all m in [0,q+2] on small groups, boundaries at 2048 bits, live rnd_plaintext histogram.", "6 C14",
+         "Ristretto's 30-byte embedding is not modelled yet."),
+ "C17": ("Theorems (hash uninterpreted): generators(n, seed) has length n, entry i is a function of (seed, i+1) only, prefix-stable, each entry is the first retry round whose candidate is >= 2 with the "
+         "growing retry string of the source, and every generator is a non-identity member of the order-q subgroup (Fermat; cofactor*q+1 = p). Stream: generators for 3 seeds x sizes up to 50 vs the model's "
+         "own SHA-512 derivation; first generator recomputed from hash_to_element.", "6 C17",
+         "Pairwise distinctness, difference from g, seed sensitivity, unknown discrete logs: properties of SHA-512, outside any theorem (evaluated on the explored seeds as tests)."),
+ "C18": ("Theorems (relative to uniform RNG bytes): num-bigint's rejection sampler returns values < bound, each candidate value has equally many byte preimages (bijection), every value reachable; "
+         "rnd_exp in [0,q), rnd_plaintext encodable, rnd a member (expect never fires); rand's sample_single returns j < range with exactly 2^lz accepted words per value (uniform); Fisher-Yates output is "
+         "always a permutation and the map choices -> permutations is a bijection onto all n!; exact draw counts and disjoint tape segments for every randomised operation. Stream: the samplers from an "
+         "injected BYTE tape (num-bigint, permutation) equal the model; draw counters; ranges/freshness/chi-square as tests.", "6 C18",
+         "Statistics and freshness of the OS RNG and malachite's internal PRNG are outside any theorem; malachite is covered by the bounds passed to it."),
+ "C19": ("Theorems: for EVERY schedule (split tree) par().map().collect(), enumerate(), unzip() and collect::<Result> equal the sequential iterator, position-aligned; only which error is reported may "
+         "differ. Stream: the harness built twice (sequential / --features rayon) with 1, 3, 16 threads (thorough: 1,2,3,7,16 + repeat): vector bytes, generators, challenges, joint decryption of lists, "
+         "batch verification, verifier decisions all equal the SAME model output; shuffles+proofs made by one build verify and decrypt in the other.", "6 C19",
+         "That rayon realises a split tree for every schedule, and data-race freedom, are properties of rayon / Send+Sync."),
  "C15": ("Theorems: the multiplicative back-ends satisfy the specification `Lawful` for every safe-prime parameter set (natLawful); "
          "group and exponent-ring laws derived generically; exp_sub_mod; kernel-checked facts p=2q+1, 1<g<p, g^q=1, cofactor on the "
          "constants regenerated from /repo. Every trait method compared with the model (= independent bigint reference) exhaustively on small groups.", "6 C15",
